@@ -166,8 +166,7 @@ def abstract(path):
                 out.append(("assign", lhs, rhs))
         elif k == "branch":
             d = e[1]
-            neg = d.startswith("Not ")
-            core = d[4:] if neg else d
+            core, neg = pathx.split_not(d)
             if "CommandState::is_running(" in core:
                 out.append(("running?", (e[2] != neg)))
             elif "is_restart" in core:
@@ -325,9 +324,9 @@ def effects(symbols):
 
 
 def loop_outcome(path):
-    """which Loop variant a handler path yields"""
-    if path.out == "ret":
-        return path.val
-    if path.out == "val":
-        return "Normally"
-    return path.out
+    """how a handler path leaves: 'continue' (Loop::Normally and Loop::Skip are treated identically by the job task: both go on
+    with the next message) or 'Break'"""
+    v = path.val if path.out in ("ret", "val") else path.out
+    if v in ("Normally", "Skip", None):
+        return "continue"
+    return v
